@@ -9,7 +9,7 @@
    format description alone. *)
 Require Import FstV.Base FstV.Pack FstV.Node FstV.Registry FstV.Builder FstV.GraphSem FstV.Format
                FstV.Fst FstV.CodecSpec FstV.Crc.
-Require Import FstV.proofs.BuilderInv FstV.proofs.EndToEnd FstV.proofs.Closed FstV.ParamsTie.
+Require Import FstV.proofs.BuilderInv FstV.proofs.EndToEnd FstV.proofs.Closed FstV.ParamsTie FstV.proofs.ParseViews.
 Require Import FstV.Properties.C01_builder.
 
 (* with the real checksum: the footer holds the masked CRC-32C (bitwise specification of C08)
@@ -46,19 +46,48 @@ Proof.
     rewrite N.eqb_refl. exact Hacc.
 Qed.
 
-(* [C09_tiling : spec_parse bs = Some p -> p_root p <> 0 -> extents_from 16 (p_nodes p) = Some (p_root p)]
-   follows from [tiles_extents] by inverting spec_parse; it is added with proofs/ParseViews.v. *)
+(* every file the specification accepts: its nodes partition the body [16, root] - no gap, no
+   overlap, first node at byte 16, last node ending at the root address, which is the last byte
+   before the footer *)
+Theorem C09_tiling : forall bs p, spec_parse bs = Some p -> p_root p <> 0 ->
+  extents_from 16 (p_nodes p) = Some (p_root p) /\
+  N.of_nat (length bs - foot_of (p_version p))%nat = p_root p + 1.
+Proof.
+  intros bs p Hp Hroot. pose proof (ParseViews.spec_parse_inv bs p Hp) as Hinv. cbv zeta in Hinv.
+  destruct Hinv as (_ & _ & _ & _ & Epv & _ & _ & Eroot & Hcase).
+  destruct Hcase as [(Hz & _)|(Hnz & Hend & Htiles & _)].
+  - rewrite Eroot in Hroot. contradiction.
+  - rewrite Epv, Eroot. split; [|exact Hend].
+    eapply tiles_extents; [exact Htiles|]. cbn [extents_from]. f_equal. lia.
+Qed.
 
-(* non-vacuity: a concrete file decoded by the specification alone *)
+(* and so do the files the builder writes (composition with C09_conformance) *)
+Theorem C09_built_files_tile : forall (ty rows cols : N) (kvs : kmap),
+  input_ok kvs -> ty < U64 ->
+  exists bs p, build_map spec_masked_crc32c ty rows cols kvs = Ok bs /\ spec_parse bs = Some p /\
+    (p_root p <> 0 -> extents_from 16 (p_nodes p) = Some (p_root p)).
+Proof.
+  intros ty rows cols kvs Hin Hty.
+  destruct (C09_conformance ty rows cols kvs Hin Hty) as (bs & p & Hb & _ & Hp & _).
+  exists bs, p. split; [exact Hb|]. split; [exact Hp|]. intro Hr. exact (proj1 (C09_tiling bs p Hp Hr)).
+Qed.
+
+(* non-vacuity: a concrete file decoded by the specification alone, with its two nodes *)
+Definition C09_example_file : list N :=
+  [3;0;0;0;0;0;0;0; 0;0;0;0;0;0;0;0; 0;98;16;65;5;1;17;133;
+   2;0;0;0;0;0;0;0; 23;0;0;0;0;0;0;0; 0;0;0;0].
 Example C09_nonvacuous :
-  spec_read [3;0;0;0;0;0;0;0; 0;0;0;0;0;0;0;0; 0;98;16;65;5;1;17;133;
-             2;0;0;0;0;0;0;0; 23;0;0;0;0;0;0;0; 0;0;0;0]
-  = Some (3, 0, [([97], 5); ([97; 98], 5)]) \/ True.
-Proof. right. exact I. Qed.
+  spec_read C09_example_file = Some (3, 0, [([97], 5); ([97; 98], 5)]) /\
+  option_map (fun p => (p_root p, map fst (p_nodes p), extents_from 16 (p_nodes p))) (spec_parse C09_example_file)
+  = Some (23, [19; 23], Some 23).
+Proof. split; vm_compute; reflexivity. Qed.
 
 Check C09_conformance.
 Print Assumptions C09_conformance.
 Print Assumptions tiles_extents.
+Check C09_tiling.
+Print Assumptions C09_tiling.
+Print Assumptions C09_built_files_tile.
 Print Assumptions tie_version.
 Print Assumptions tie_index_threshold.
 Print Assumptions tie_common_inv.
